@@ -179,7 +179,7 @@ def main_check(args) -> int:
     def handle(o, w: Worker):
         name = o["name"]
         task = {"id": name, "module_path": o["module_path"], "function": o["function"], "cap": o.get("cap", 60),
-                "exclude": o["exclude"], "opaque": o.get("opaque", False), "scratch": scratch,
+                "exclude": o["exclude"], "helpers": o.get("helpers", []), "opaque": o.get("opaque", False), "scratch": scratch,
                 "twin": o.get("twin", True), "twin_cap": o.get("twin_cap", 60)}
         deadline = task["cap"] * 1.5 + task["twin_cap"] + 90
         r = w.run(task, deadline)
@@ -204,7 +204,8 @@ def main_check(args) -> int:
                     for k in known:
                         if fnmatch.fnmatch(name, k["obligation"]):
                             try:
-                                if eval(k["region"], {}, dict(a)):  # noqa: S307
+                                genv = dict(vars(importlib.import_module(k["helpers"]))) if k.get("helpers") else {}
+                                if eval(k["region"], genv, dict(a)):  # noqa: S307
                                     hit = k
                                     break
                             except Exception:  # noqa: BLE001
@@ -218,6 +219,8 @@ def main_check(args) -> int:
                             emit(f"KNOWN-FINDING: property={pid} {hit['what']}")
                         o2 = dict(o)
                         o2["exclude"] = o["exclude"] + [hit["region"]]
+                        if hit.get("helpers"):
+                            o2["helpers"] = sorted(set(o.get("helpers", [])) | {hit["helpers"]})
                         o2["known_hits"] = o.get("known_hits", []) + [{"id": key, "args": repr(a), "replay": rpath}]
                         # keep partial stats
                         o2["acc"] = _acc(o.get("acc"), rec)
@@ -263,6 +266,10 @@ def main_check(args) -> int:
                                        args=repr(a))
         else:
             rec["detail"] = main.get("detail")
+            if (main["status"] == "inconclusive" and o["exclude"] and "PRE_UNSAT" in str(main.get("detail"))
+                    and (main.get("wall_s") or 1e9) < task["cap"] / 2):
+                # after removing the known-finding region nothing is left of this obligation's input space
+                rec.update(status="discharged", detail="input space entirely inside the listed known-finding region(s)")
         if o.get("acc"):
             rec = _acc(o["acc"], rec, final=True)
         return rec
